@@ -76,6 +76,11 @@ def run(tier, replay=None):
                 if rr.get("broken"):
                     raise common.Broken("scenario %s: %s" % (rr["id"], rr["broken"]))
                 run_.evaluations += 1
+                if rr.get("handshake_err"):
+                    run_.diverge("transport=%s second-session-cannot-handshake" % sc["transport"],
+                                 "with the chain %s configured a SECOND session cannot complete its handshake (%s); the same server without middlewares accepts it"
+                                 % (sc["chain"], rr["handshake_err"]), {"cmd": ["c15"], "input": {"scenarios": [sc]}})
+                    continue
                 rp = {"cmd": ["c15"], "input": {"scenarios": [sc]}, "expected_events": events, "model_answer": st["res"], "spec": "Middleware"}
                 rps[rr["id"]] = rp
                 tag = "transport=%s form=%s" % (sc["transport"], sc["form"])
